@@ -22,7 +22,8 @@ I8_IMM = {"frame_dig": [0], "frame_bury": [0]}
 TERMINATORS = {"return", "retsub", "err"}
 
 
-def validate(teal: str, version: int, mode: str):
+def validate(teal: str, version: int, mode: str, stack: bool = True):
+    """stack=False: structure and control flow only (what an assembler / loader checks), no abstract interpretation"""
     probs = []
     lines = teal.split("\n")
     if not lines or lines[0].strip() != f"#pragma version {version}":
@@ -110,7 +111,8 @@ def validate(teal: str, version: int, mode: str):
     if probs:
         return probs
     # ---- stack heights and types -----------------------------------------------------------------------
-    probs += stack_check(prog, sub_targets)
+    if stack:
+        probs += stack_check(prog, sub_targets)
     return probs
 
 
